@@ -234,10 +234,21 @@ def gen_case(seed, idx, tier):
     last_nl = rng.random() < 0.5
     ftext = "\n".join(lines) + ("\n" if (last_nl and lines) else "")
     etext = " ".join(quote(w) for w in ew)
-    cfg.files = [(".progargs/prog.pa", ftext)] if lines else []
+    # the file is either the default program-argument file or an explicit one named with --arg-file on argv (then it is
+    # evaluated where the argument stands: before the rest of argv, after the environment variable)
+    explicit = bool(lines) and rng.random() < 0.3 and not multi
+    if explicit:
+        cfg.flags &= ~HF["readProgArg"]
+        cfg.arg_file_key = "arg-file"
+        cfg.files = [("my args/file.txt", ftext)]
+        aw = [rng.choice(["--arg-file=@HOME@/my args/file.txt", "--arg-file"])] + aw
+        if aw[0] == "--arg-file":
+            aw.insert(1, "@HOME@/my args/file.txt")
+    else:
+        cfg.files = [(".progargs/prog.pa", ftext)] if lines else []
     cfg.env = [("PROG", etext)] if ew else []
     # expected by the model: fold over file + env + argv, cardinality only for argv uses
-    allu = fpart + epart + apart
+    allu = (epart + fpart + apart) if explicit else (fpart + epart + apart)
     try:
         exp = argh.expected(cfg, allu)
     except (argh.ModelAbstain, ValueError):
@@ -245,13 +256,14 @@ def gen_case(seed, idx, tier):
         return c
     if multi:
         exp[multi[0].slot] = multi[1]
-    c.meta.update(multi=multi[2] if multi else None)
+    c.meta.update(multi=multi[2] if multi else None, explicit=explicit)
     c.meta.update(cfg=cfg, exp=exp, parts=(fpart, epart, apart), override=override, last_nl=last_nl, nsrc=sum(1 for p in (fpart, epart, apart) if p))
     c.add("c07", lambda sid: argh.scenario_text(sid, "sources", cfg, aw))
     if not override:
         # differential: everything on argv
         cfg2 = cfg
-        allw = [w for u in fw_by_use for w in u] + ew + aw
+        allw = (ew + [w for u in fw_by_use for w in u] + [w for w in aw if "@HOME@" not in w and w != "--arg-file"]) if explicit \
+            else ([w for u in fw_by_use for w in u] + ew + aw)
         files, env = cfg.files, cfg.env
 
         def text2(sid):
@@ -295,6 +307,8 @@ def judge(c, results, rep):
         rep.stat("sources.file_last_line_%s_newline" % ("with" if c.meta["last_nl"] else "without"))
     if c.meta.get("multi"):
         rep.stat("sources.multi_value_list_continues_%s" % c.meta["multi"])
+    if c.meta.get("explicit"):
+        rep.stat("sources.explicit_arg_file_argument")
     dumps = []
     for k, (sid, text) in enumerate(c.scenarios):
         r = results[sid]
